@@ -90,3 +90,13 @@ Definition kind_of_cmd (c : modecmd) : bkind :=
   | MShowCursor => KShowCursor | MHideCursor => KHideCursor
   | MClear => KClear
   end.
+
+(* ---- histories that contain Exec: what an external command leaves behind, as one more step of the abstract machine
+   (alt screen, bracketed paste and focus reporting as they were; the cursor hidden again; mouse modes off: the code
+   deliberately does not re-enable them and the property does not ask for it) *)
+Inductive hstep := HC (c : modecmd) | HExec.
+Definition hist_apply (m : modes) (h : hstep) : modes :=
+  match h with
+  | HC c => apply m c
+  | HExec => mk_modes (a_alt m) true false false false (a_paste m) (a_focus m)
+  end.
